@@ -961,7 +961,13 @@ class Executor:
         """all(...)/any(...) over range(...) with symbolic bounds -> forall /
         exists; over concrete iterables -> conjunction"""
         if len(gen.generators) != 1:
-            raise OutOfReach("nested generators in a quantifier")
+            vals = self.comprehension(gen.elt, gen.generators, frame)
+            terms = [self.truth_term(v) for v in vals]
+            if any(t is None for t in terms):
+                raise OutOfReach("non-boolean quantifier body")
+            if not terms:
+                return is_all
+            return mk_bool(z3.And(*terms) if is_all else z3.Or(*terms))
         g = gen.generators[0]
         it = g.iter
         sym_range = None
